@@ -17,8 +17,9 @@
   (the listener calls of one event are one micro-step of the model).
 
   The property deliberately excludes `processIf` / `processUntil`: their put-back makes the answer
-  momentarily wrong (`C11_processIf_counterexample`).  Accordingly `C11_empty_true` assumes
-  `NoIf progs`; the counting theorems (`C11_guard_counts`, `C11_inflight_guarded`,
+  momentarily wrong (`C11_processIf_counterexample`, `C11_processUntil_counterexample`).  Accordingly
+  `C11_empty_true` assumes `NoIf progs` (neither `processIf` nor `processUntil` occurs; before
+  `processUntil` was modelled `NoIf` only had `processIf` to exclude); the counting theorems (`C11_guard_counts`, `C11_inflight_guarded`,
   `C11_nonempty_during_dispatch`) hold for EVERY family of programs.
 
   Every theorem quantifies over every family of programs, both values of `dqnLocked`, every
@@ -88,7 +89,7 @@ theorem step_emptyRead2 {t : Tid} {th : Thread} {seen ch : Nat} (ht : getT s t =
     (hpc : th.pc = .emptyRead2 seen) : step s t ch = some (finish s t th (.bool (s.ec == 0))) := by
   simp [step, ht, hpc]
 
-/-- Without `processIf`: once an `emptyQueue` call has read the list as empty, no event spliced in
+/-- Without `processIf` / `processUntil` (`NoIf`): once an `emptyQueue` call has read the list as empty, no event spliced in
     before the call began is in the list — events never return to the list. -/
 theorem C11_seen_not_queued (hno : NoIf progs) (h : ReachF progs flag s) {t : Tid} {th : Thread} {seen : Nat}
     (ht : getT s t = some th) (hpc : th.pc = .emptyRead2 seen) :
@@ -111,7 +112,8 @@ theorem C11_empty_true_state (hno : NoIf progs) (h : ReachF progs flag s) {t : T
   rw [hi, hq, h3] at hc
   exact List.count_pos_iff.mp (by simp only [consumedIds]; simp only [List.count_nil] at hc; omega)
 
-/-- **C11 (emptyQueue = true).** For programs without `processIf`: if the micro-step that performs
+/-- **C11 (emptyQueue = true).** For programs without `processIf` and without `processUntil` (`NoIf`,
+    the two calls the property excludes): if the micro-step that performs
     the second read of an `emptyQueue()` call records the result `true`, then every event whose id
     is below `seen` — i.e. every event spliced in before the call began, in particular every event
     whose `enqueue` had completed before — is in `consumed` afterwards: it was taken, cleared, or
@@ -167,7 +169,7 @@ theorem C11_nonempty_while_queued {t : Tid} {th : Thread} {seen ch : Nat}
 
 end
 
-/-! ### 5. why `processIf` is excluded; non-vacuity -/
+/-! ### 5. why `processIf` and `processUntil` are excluded; non-vacuity -/
 
 namespace C11Demo
 
@@ -201,6 +203,26 @@ theorem C11_processIf_counterexample :
       s.queue = [0] ∧ consumedIds s = [] ∧ enqueuedIds s = [0] ∧
       (s.threads.map (·.rets))[0]? = some [Ret.unit] :=
   ⟨exec (init progsIf) schedIf2, ⟨schedIf2, rfl⟩, by decide +kernel, by decide +kernel, by decide +kernel,
+    by decide +kernel, by decide +kernel⟩
+
+/-- the same with `processUntil` (stop at the first even id: it stops at event 0 and puts it back) -/
+def progsUntil : List (List Call) := [[.enqueue], [.processUntil false], [.emptyQueue]]
+
+def schedUntil : List (Tid × Nat) := rep 0 5 ++ rep 1 5 ++ rep 2 2 ++ rep 1 4 ++ rep 2 1
+
+example : (exec (init progsUntil) (rep 0 5 ++ rep 1 5 ++ rep 2 2)).queue = [] ∧
+    (exec (init progsUntil) (rep 0 5 ++ rep 1 5 ++ rep 2 2)).threads.map (·.pc) =
+      [.idle, .procPutBack [0] false, .emptyRead2 1] := by
+  decide +kernel
+
+/-- **Counter-example with `processUntil`.** `emptyQueue()` has just returned `true` although event 0,
+    whose `enqueue` had completed before the call began, is pending in the queue (put back by
+    `processUntil`) and has never been consumed. -/
+theorem C11_processUntil_counterexample :
+    ∃ s, Reach progsUntil s ∧ (s.threads.map (·.rets))[2]? = some [Ret.bool true] ∧
+      s.queue = [0] ∧ consumedIds s = [] ∧ enqueuedIds s = [0] ∧
+      (s.threads.map (·.rets))[0]? = some [Ret.unit] :=
+  ⟨exec (init progsUntil) schedUntil, ⟨schedUntil, rfl⟩, by decide +kernel, by decide +kernel, by decide +kernel,
     by decide +kernel, by decide +kernel⟩
 
 /-- producer, a `process` consumer, an observer calling `emptyQueue` twice -/
